@@ -57,6 +57,9 @@ KINDS = {
     "count_start": {"count": 6, "start_size": 0.07},
     "count_total": {"count": 5, "total_expansion": 3.0},
     "count_end": {"count": 4, "end_size": 0.12},
+    # a cell size with the overall ratio: the count is rounded, the given ratio is what must be written
+    "start_total": {"start_size": 0.1, "total_expansion": 2.0},
+    "end_total": {"end_size": 0.15, "total_expansion": 0.5},
     # uniform cells: with two sections (same count on 0.3 and 0.7 of the edge) every expansion is exactly 1 and only the
     # ORDER of the sections tells the two ends apart
     "count_only": {"count": 4},
@@ -435,6 +438,26 @@ def run_case(case):
                         }
                     )
                     break
+        # a GIVEN total expansion with the default preserve mode (count and cell-to-cell ratio are the same on every
+        # edge the chop reaches): every edge of the subject family carries exactly that ratio between its last and first cell
+        if case["sections"] == 1 and case["preserve"] == "c2c_expansion" and "total_expansion" in KINDS[case["kind"]] and not case.get("overspec"):
+            g_ = case["dir"]
+            members_ = {m for m in fam.parent if fam.find(m) == subject_root}
+            cells_ = [tuple(c) for c in script["cells"]]
+            want_T = KINDS[case["kind"]]["total_expansion"]
+            for (i1, i2), lst in edges.items():
+                if [i for i in range(3) if i1[i] != i2[i]] != [g_]:
+                    continue
+                for cell, secs, length in lst:
+                    if (cells_.index(cell), g_) not in members_ or len(secs) != 1 or len(secs[0]) < 2:
+                        continue
+                    got_T = secs[0][-1] / secs[0][0]
+                    if not (close(got_T, want_T, 1e-9) or close(got_T, 1.0 / want_T, 1e-9)):
+                        violations.append({"clause": "given-total-expansion-not-written", "coords": coords, "detail": f"edge {(i1, i2)} of block at {cell}: last/first cell = {got_T:.9g}, the chop gives total_expansion={want_T}"})
+                        break
+                else:
+                    continue
+                break
         # (ii) preserved size realised on every edge of the subject family, at the geometrically same end
         pres = case["preserve"]
         g = case["dir"]
